@@ -56,6 +56,9 @@ func scriptDecide(script []scriptEntry) func(refsmtp.Step) refsmtp.Action {
 			return refsmtp.Action{Kind: refsmtp.Stall}
 		case "mute":
 			return refsmtp.Action{Kind: refsmtp.Mute}
+		case "queue-then-drop":
+			// (meaningful at end-of-data) the server queues the message, the connection dies before the 250 leaves
+			return refsmtp.Action{Kind: refsmtp.Drop, Code: 250}
 		case "garbage":
 			return refsmtp.Action{Kind: refsmtp.Raw, Text: "hello, this line is not an SMTP reply\r\n"}
 		case "reply":
